@@ -593,7 +593,12 @@ func (w *World) exec(op *Op) (done bool) {
 		if mc != nil && mc.Cmp != cmp && len(mc.Items) > 1 {
 			cmp = mc.Cmp // a different order over existing items is a caller error
 		}
-		nc := h.st.SetCollection(name, CmpFunc(cmp))
+		var kc g.KeyCompare = CmpFunc(cmp)
+		if cmp == CmpBytes && op.N%2 == 1 {
+			kc = nil // nil means "the default, bytes.Compare", for new and for existing names
+			w.ev["setcoll_nil_compare"]++
+		}
+		nc := h.st.SetCollection(name, kc)
 		if nc == nil {
 			w.failf("setcollection-nil", "SetCollection(%q) returned nil", name)
 		}
@@ -939,7 +944,9 @@ func (w *World) execSnapBad(sh *Handle, op *Op) {
 			w.failf("snapshot-accepted-delete", "Delete on a snapshot returned nil error")
 		}
 	case 3:
-		if err := c.Write(); err == nil {
+		if err := c.Write(); err == nil && !w.opt.Monitor {
+			// (under the C09 monitor the refusal itself is not the point: whatever the
+			// call writes is attributed to this op and flagged by the call-log check)
 			w.failf("snapshot-accepted-write", "Collection.Write on a snapshot returned nil")
 		}
 	case 4:
